@@ -111,12 +111,15 @@ theorem open_inv {d : Disk} {A : List Rec} (i : DInv d A) :
     ∃ s d', openStore d = .ok (s, d') ∧ DInv d' A ∧ SInv s d' A [] ∧ s.closed = false := by
   refine ⟨_, _, openStore_ok d i.garb, ?_, ?_, rfl⟩
   · refine ⟨numsAsc_of_map_eq (clearLastGarbage_nums d.files).symm i.asc,
-      garbageOnlyLast_of_clean _ (clearLastGarbage_all_clean d.files i.garb), ?_, i.zclean, ?_, i.zlow⟩
+      garbageOnlyLast_of_clean _ (clearLastGarbage_all_clean d.files i.garb), ?_, i.zclean, ?_, i.zlow, ?_, i.zlowAlt⟩
     · intro ⟨f, hf, hg⟩
       have := clearLastGarbage_all_clean d.files i.garb f hf
       simp [this] at hg
     · show Presents d.wmVal (recsOf (clearLastGarbage d.files)) A
       rw [recsOf_clearLastGarbage]; exact i.pres
+    · intro w hw
+      show Presents (w.getD 0) (recsOf (clearLastGarbage d.files)) A
+      rw [recsOf_clearLastGarbage]; exact i.presAlt w hw
   · have w0 := empty_EWF (d.wm.getD 0)
     obtain ⟨cp, cv⟩ := replayFiles_closed _ (clearLastGarbage d.files) w0
     rw [recsOf_clearLastGarbage] at cp cv
